@@ -67,6 +67,7 @@ pub mod atomic {
         match sim::ctx() {
             None => real().0,
             Some((s, me)) => {
+                s.pre_touch(me, addr);
                 let mut real = Some(real);
                 s.op(me, |st| {
                     let obj = meta.get(st, s.epoch, || Obj::Atomic { rel: VClock::ZERO });
